@@ -115,7 +115,14 @@ def translate():
     """regenerate coq/Gen*.v from REPO's working tree.  Returns (ok, message)."""
     env = dict(os.environ, VERIF_REPO=REPO)
     rc, out = sh([sys.executable, os.path.join(VERIF, 'tools', 'translate.py')], env=env, timeout=120)
-    return rc == 0, out.strip()
+    errs = {}
+    for line in out.splitlines():
+        if line.startswith('TRANSLATE-ERROR '):
+            name, _, msg = line[len('TRANSLATE-ERROR '):].partition(': ')
+            errs[name] = msg
+    if rc != 0 and not errs:
+        errs['*'] = out.strip()[-600:]
+    return errs, out.strip()
 
 
 def coq_make(targets=None, timeout=1500):
